@@ -81,6 +81,8 @@ func checkC03(c c03Case) *vlib.Violation {
 	return nil
 }
 
+var orderSeed = vlib.EnvInt("VERIF_SEED", 1) & 0xffff
+
 func enumeratePass(shortDeck, shortTable bool, st *vlib.Stats, mu *sync.Mutex) (*c03Case, *vlib.Violation) {
 	deck := Deck(shortDeck)
 	table, order := Table(shortTable)
@@ -113,7 +115,14 @@ func enumeratePass(shortDeck, shortTable bool, st *vlib.Stats, mu *sync.Mutex) (
 					for c := b + 1; c < n && r.v == nil; c++ {
 						for d := c + 1; d < n && r.v == nil; d++ {
 							for e := d + 1; e < n; e++ {
-								hand[0], hand[1], hand[2], hand[3], hand[4] = deck[a], deck[b], deck[c], deck[d], deck[e]
+								// the five cards are handed over in an order that varies from hand to
+								// hand and with VERIF_SEED, so that the exhaustive pass does not only
+								// ever see ascending deck order
+								pm := perms5[(a*7+b*11+c*13+d*17+e*19+orderSeed)%120]
+								sorted5 := [5]string{deck[a], deck[b], deck[c], deck[d], deck[e]}
+								for k := 0; k < 5; k++ {
+									hand[k] = sorted5[pm[k]]
+								}
 								if open && IsA9876(hand) {
 									r.skipped++
 									continue
@@ -244,6 +253,19 @@ type c03PermCase struct {
 
 func checkC03Perm(c c03PermCase) *vlib.Violation {
 	table, _ := Table(c.ShortTable)
+	if len(c.Other) == 0 {
+		// recorded by the purity part of the stage: partial hands first, then the hand
+		for mask := 1; mask < 31; mask++ {
+			var sub []string
+			for k := 0; k < 5 && k < len(c.Hand); k++ {
+				if mask&(1<<uint(k)) != 0 {
+					sub = append(sub, c.Hand[k])
+				}
+			}
+			score(table, sub)
+		}
+		return checkC03(c03Case{ShortDeck: c.ShortDeck, ShortTable: c.ShortTable, Hands: [][]string{c.Hand}})
+	}
 	s1, c1, e1 := score(table, c.Hand)
 	s2, c2, e2 := score(table, c.Other)
 	if e1 != nil || e2 != nil {
@@ -325,6 +347,24 @@ func TestC03Perm(t *testing.T) {
 			c.Hand = append(c.Hand, deck[i])
 		}
 		st.Class("category:" + CatName[Rank(c.Hand).Cat])
+		// The evaluator must be a pure function of the five cards: the engine also
+		// hands it partial hands (hole cards alone before the flop), so every proper
+		// subset of the hand is evaluated first - in this process, right before - and
+		// the hand must still get its category and its place in the order.
+		table, _ := Table(c.ShortTable)
+		for mask := 1; mask < 31; mask++ {
+			var sub []string
+			for k := 0; k < 5; k++ {
+				if mask&(1<<uint(k)) != 0 {
+					sub = append(sub, c.Hand[k])
+				}
+			}
+			score(table, sub)
+		}
+		if v := checkC03(c03Case{ShortDeck: c.ShortDeck, ShortTable: c.ShortTable, Hands: [][]string{c.Hand}}); v != nil {
+			v.Signature = "after-partial-hands/" + v.Signature
+			return vlib.Outcome{Case: c, Violation: v}
+		}
 		suitPerm := rapid.Permutation([]byte(SuitChars)).Draw(rt, "suits")
 		relabel := rapid.Bool().Draw(rt, "relabel")
 		var first *vlib.Violation
